@@ -828,10 +828,33 @@ class IrGenerator:
             # construct a case when statement if possible
             #
 
+            # The attempt converts the branch bodies. When it is abandoned
+            # (a branch contains a state transition) nothing of it may stay
+            # behind in the open blocks or in the state machine.
+            sm_ctx = ir.StatemachineContext._singleton
+            saved_blocks = [(block, len(block._content)) for block in open_blocks]
+
+            if sm_ctx is not None:
+                first_state = sm_ctx.first_state()
+                saved_states = list(sm_ctx._states)
+                saved_open_block = first_state._open_block
+
+                if not any(block is first_state.code() for block in open_blocks):
+                    saved_blocks.append(
+                        (first_state.code(), len(first_state.code()._content))
+                    )
+
             case_when = try_gen_case_when(inp, open_blocks)
 
             if case_when is not None:
                 return case_when
+
+            for saved_block, saved_len in saved_blocks:
+                del saved_block._content[saved_len:]
+
+            if sm_ctx is not None:
+                sm_ctx._states[:] = saved_states
+                first_state.set_open_block(saved_open_block)
 
             #
             # fallback to nested if statements
